@@ -240,6 +240,8 @@ class Kernel:
     def ex(self, e):
         """(text, type) of an expression; subscripts and divisors are recorded in self.binds / self.divs"""
         if isinstance(e, ast.Constant):
+            if e.value is None:
+                return '(@None Z)', 'option Z'
             if isinstance(e.value, bool):
                 return ('true' if e.value else 'false'), 'bool'
             if isinstance(e.value, int):
